@@ -439,6 +439,10 @@ impl<'a> Run<'a> {
                     R::Event(e) => { tx = e.tx; }
                     other => self.fail("append-unreadable", cmd, format!("event {} of an acknowledged append is not returned by EGET: {}", h128(eids[0]), reply_txt(&other))),
                 }
+                // an accepted append reports the timestamp it was given (milliseconds, unchanged)
+                for (i, e) in events.iter().enumerate() {
+                    if let Some(t) = e.ts { if tss[i] != t { self.fail("append-timestamp", cmd, format!("append with TIMESTAMP {t} was accepted and reports timestamp {}", tss[i])); } }
+                }
                 for (i, e) in events.iter().enumerate() {
                     committed.push(Ev { eid: eids[i], pk: key.as_u128(), pid: pid_of(*key) as u64, tx, seq: seqs[i], ver: vers[i], ts: tss[i],
                         stream: e.stream.clone(), name: vec![], meta: vec![], payload: vec![] });
